@@ -70,3 +70,113 @@ def _mesh_point_forces(rng, nx, ny, sym):
     F = rng.normal(size=(nx - 1, ny - 1, 3)) * 1e3
     return dict(factory=lambda: MeshPointForces(surfaces=[s]), ints=[nx, ny], consts=[0.375, 0.125],
                 inputs=OrderedDict([(s["name"] + "_sec_forces", F)]), outputs=[s["name"] + "_mesh_point_forces"])
+
+
+# ---------------------------------------------------------------------------------------
+# structures: mass, cg, inertial / fuel / point loads
+# ---------------------------------------------------------------------------------------
+def _nodes(rng, s):
+    m = s["mesh"]; w = s["fem_origin"]
+    return (1 - w) * m[0] + w * m[-1]
+
+
+@spec("Weight")
+def _weight(rng, nx, ny, sym):
+    from openaerostruct.structures.weight import Weight
+    s = _surf(rng, nx, ny, sym)
+    A = rng.uniform(1e-3, 5e-2, size=ny - 1)
+    return dict(factory=lambda: Weight(surface=s), ints=[ny, int(sym)], consts=[s["mrho"], s["wing_weight_ratio"]],
+                inputs=OrderedDict(A=A, nodes=_nodes(rng, s)), outputs=["structural_mass", "element_mass"])
+
+
+@spec("StructuralCG")
+def _structural_cg(rng, nx, ny, sym):
+    from openaerostruct.structures.structural_cg import StructuralCG
+    s = _surf(rng, nx, ny, sym)
+    em = rng.uniform(1.0, 50.0, size=ny - 1)
+    sm = np.array([em.sum() * (2.0 if sym else 1.0) * rng.uniform(0.9, 1.1)])
+    return dict(factory=lambda: StructuralCG(surface=s), ints=[ny, int(sym)], consts=[],
+                inputs=OrderedDict(nodes=_nodes(rng, s), structural_mass=sm, element_mass=em), outputs=["cg_location"])
+
+
+@spec("StructWeightLoads")
+def _struct_weight_loads(rng, nx, ny, sym):
+    from openaerostruct.structures.wing_weight_loads import StructureWeightLoads
+    s = _surf(rng, nx, ny, sym)
+    em = rng.uniform(1.0, 50.0, size=ny - 1)
+    return dict(factory=lambda: StructureWeightLoads(surface=s), ints=[ny], consts=[],
+                inputs=OrderedDict(element_mass=em, load_factor=np.array([rng.uniform(0.5, 2.5)]), nodes=_nodes(rng, s)),
+                outputs=["struct_weight_loads"], input_order=["element_mass", "load_factor", "nodes"])
+
+
+@spec("FuelLoads")
+def _fuel_loads(rng, nx, ny, sym):
+    from openaerostruct.structures.fuel_loads import FuelLoads
+    s = _surf(rng, nx, ny, sym)
+    s["Wf_reserve"] = float(rng.uniform(0, 2000.0))
+    vols = rng.uniform(0.1, 2.0, size=ny - 1)
+    return dict(factory=lambda: FuelLoads(surface=s), ints=[ny, int(sym)], consts=[s["Wf_reserve"]],
+                inputs=OrderedDict(nodes=_nodes(rng, s), fuel_vols=vols, fuel_mass=np.array([rng.uniform(1e3, 3e4)]),
+                                   load_factor=np.array([rng.uniform(0.5, 2.5)])),
+                outputs=["fuel_weight_loads"], jtol=1e-6)
+
+
+@spec("FuelVolDelta")
+def _fuel_vol_delta(rng, nx, ny, sym):
+    from openaerostruct.structures.wingbox_fuel_vol_delta import WingboxFuelVolDelta
+    s = _surf(rng, nx, ny, sym)
+    s["Wf_reserve"] = float(rng.uniform(0, 2000.0)); s["fuel_density"] = float(rng.uniform(700, 850))
+    vols = rng.uniform(0.1, 2.0, size=ny - 1)
+    return dict(factory=lambda: WingboxFuelVolDelta(surface=s), ints=[ny, int(sym)],
+                consts=[s["Wf_reserve"], s["fuel_density"]],
+                inputs=OrderedDict(fuelburn=np.array([rng.uniform(1e3, 3e4)]), fuel_vols=vols),
+                outputs=["fuel_vol_delta"], jtol=1e-6)
+
+
+def _point_setup(rng, nx, ny, sym):
+    s = _surf(rng, nx, ny, sym)
+    npm = int(rng.integers(1, 4))
+    s["n_point_masses"] = npm
+    nodes = _nodes(rng, s)
+    locs = np.zeros((npm, 3))
+    for p in range(npm):
+        j = rng.integers(ny)
+        locs[p] = nodes[j] + rng.normal(size=3) * np.array([0.5, 0.3, 0.3])
+    return s, npm, nodes, locs
+
+
+@spec("PointMassLoads")
+def _point_mass_loads(rng, nx, ny, sym):
+    from openaerostruct.structures.compute_point_mass_loads import ComputePointMassLoads
+    s, npm, nodes, locs = _point_setup(rng, nx, ny, sym)
+    return dict(factory=lambda: ComputePointMassLoads(surface=s), ints=[ny, npm], consts=[],
+                inputs=OrderedDict(point_mass_locations=locs, point_masses=rng.uniform(100, 5000, size=npm), nodes=nodes,
+                                   load_factor=np.array([rng.uniform(0.5, 2.5)])),
+                outputs=["nodal_weightings", "loads_from_point_masses"], jtol=1e-5, jatol=1e-6)
+
+
+@spec("ThrustLoads")
+def _thrust_loads(rng, nx, ny, sym):
+    from openaerostruct.structures.compute_thrust_loads import ComputeThrustLoads
+    s, npm, nodes, locs = _point_setup(rng, nx, ny, sym)
+    return dict(factory=lambda: ComputeThrustLoads(surface=s), ints=[ny, npm], consts=[],
+                inputs=OrderedDict(point_mass_locations=locs, engine_thrusts=rng.uniform(1e3, 1e5, size=npm), nodes=nodes),
+                outputs=["nodal_weightings", "loads_from_thrusts"], jtol=1e-5, jatol=1e-6)
+
+
+@spec("TotalLoads")
+def _total_loads(rng, nx, ny, sym):
+    from openaerostruct.structures.total_loads import TotalLoads
+    s = _surf(rng, nx, ny, sym)
+    relief, fuel, pm = (bool(rng.integers(2)) for _ in range(3))
+    s["struct_weight_relief"] = relief; s["distributed_fuel_weight"] = fuel
+    if pm:
+        s["n_point_masses"] = 1
+    inp = OrderedDict(loads=rng.normal(size=(ny, 6)) * 1e3)
+    if relief: inp["struct_weight_loads"] = rng.normal(size=(ny, 6)) * 1e3
+    if fuel: inp["fuel_weight_loads"] = rng.normal(size=(ny, 6)) * 1e3
+    if pm:
+        inp["loads_from_point_masses"] = rng.normal(size=(ny, 6)) * 1e3
+        inp["loads_from_thrusts"] = rng.normal(size=(ny, 6)) * 1e3
+    return dict(factory=lambda: TotalLoads(surface=s), ints=[ny, int(relief), int(fuel), int(pm)], consts=[],
+                inputs=inp, outputs=["total_loads"])
